@@ -10,8 +10,9 @@ PROPERTY = 'C16'
 LEVEL = 'fault_enumeration'
 RULE = ('A bundle with a generated plaintext payload (0..5000 octets incl. empty) and an extension block gets a Block '
         'Confidentiality Block over {payload, extension block, both} either (A) from a real source agent with a policy '
-        'for COSE_Encrypt0 (A128GCM / A256GCM direct key) or COSE_Encrypt with an A256KW wrapped content key, a fresh IV '
-        'per operation, through its real transmit chain, or (B) from the independent reference source (Encrypt0, scopes '
+        'for COSE_Encrypt0 (A128GCM / A256GCM direct key) or COSE_Encrypt with an A256KW wrapped content key, an IV '
+        'list that is sufficient, empty ("use random") or exhausted by earlier bundles, plain payloads or status reports in '
+        'object form, through its real transmit chain, or (B) from the independent reference source (Encrypt0, scopes '
         'the repository never emits, or no scope parameter at all = default scope).  Oracle part 1 on the wire (independent codec): the target data differs from the '
         'plaintext and the independent decryptor vlib/refcose.py recovers exactly the plaintext.  Part 2: the encoded '
         'bundle is altered (every ciphertext bit for small cases, each primary field, target type/number/flags, security '
@@ -25,7 +26,8 @@ SHRINK_KEYS = ('alterations',)
 SHRINK_KINDS = ('list',)
 ASSUMPTIONS = [
     'AES-GCM / AES-KW primitives from the cryptography package are trusted; the COSE structures around them are independent',
-    'a fresh 12-octet IV is supplied for every operation (the repository pops IVs from its policy template)',
+    'the policy template lists one IV per target, or (policy_ivs 0 / 1, several bundles in a row) fewer than needed: '
+    'SecOperation documents an empty list as "use random"; the reference takes the IV from the message header',
 ]
 EXHAUSTIVE_PART = 'every single-bit flip of the ciphertext of the enumerated small cases; every catalogue alteration per mode x target'
 
@@ -58,7 +60,13 @@ def cases(draw):
             'targets': draw(st.sampled_from([['payload'], ['payload'], ['ext'], ['payload', 'ext']])),
             'scope': draw(st.integers(0, len(SCOPES) - 1)), 'accept': draw(st.booleans()),
             'plen': draw(st.sampled_from([0, 1, 15, 16, 17, 300, 5000])), 'seed': draw(st.integers(0, 99)),
-            'pcrc': draw(st.sampled_from([0, 1, 2])), 'bcrc': draw(st.sampled_from([0, 1, 2])), 'alterations': alts}
+            'pcrc': draw(st.sampled_from([0, 1, 2])), 'bcrc': draw(st.sampled_from([0, 1, 2])), 'alterations': alts,
+            # direction A only: how many IVs the policy template lists (None = one per target; 0 = "use random", as the
+            # SecOperation documentation says of an empty list), how many bundles went through the association before
+            # the judged one, and whether the payload is an administrative record in object form (a status report as
+            # the agent itself builds them)
+            'policy_ivs': draw(st.sampled_from([None, None, 0, 1])), 'earlier': draw(st.sampled_from([0, 0, 1, 2])),
+            'admin_obj': draw(st.sampled_from([False, False, True]))}
 
 
 def strategy(tier):
@@ -76,6 +84,11 @@ def enumerate_cases(tier):
             # a source that states no AAD scope at all (the default scope covers the security block itself too)
             yield {'direction': 'B', 'mode': mode, 'targets': targets, 'scope': len(SCOPES) - 1, 'accept': accept,
                    'plen': 9, 'seed': 1, 'pcrc': 0, 'bcrc': 0, 'alterations': catalogue}
+    # the association as configured by default (no IV list), used for several bundles in a row, admin-record payloads
+    short = [['tgt-data', 0, 3], ['pri-time', 0, 0], ['other-data', 0, 0], ['res-iv', 0, 2], ['wrong-key', 0, 0]]
+    for mode, targets, ivs, earlier, admin in itertools.product(MODES, (['payload'], ['payload', 'ext']), (None, 0, 1), (0, 1, 2), (False, True)):
+        yield {'direction': 'A', 'mode': mode, 'targets': targets, 'scope': 0, 'accept': True, 'plen': 9, 'seed': 2, 'pcrc': 1, 'bcrc': 1,
+               'alterations': short, 'policy_ivs': ivs, 'earlier': earlier, 'admin_obj': admin}
     # every ciphertext bit (payload ciphertext = plaintext length + 16 octet tag)
     for direction, mode in (('A', 'enc0-256'), ('A', 'kw'), ('B', 'enc0-128')):
         plen = 4 if tier == 'quick' else 12
@@ -98,6 +111,11 @@ def base_bundle(case):
               dict(type=1, num=1, flags=0, crc_type=case['bcrc'], data=strat9174.content(case['plen'], case['seed']).hex())]
     pri = dict(version=7, flags=r.FLAG_RPT_DELETION, crc_type=case['pcrc'], dest=['dtn', '//dst/svc'], src=['dtn', '//srcnode/app'],
                rpt=['dtn', '//reports/'], ts=[789004000000, 5], lifetime=3600000, frag=None)
+    if case.get('admin_obj') and case['direction'] == 'A':
+        # a status report, handed to the source as payload *object* (what Agent.create_report builds)
+        pri['flags'] = r.FLAG_ADMIN
+        pri['rpt'] = ['dtn', 'none']
+        blocks[-1]['data'] = r.status_report([[True, 5], [False], [False], [True, 7]], 6, ['dtn', '//subject/'], [1000, case['seed']])
     return {'primary': pri, 'blocks': blocks}
 
 
@@ -134,14 +152,27 @@ def encrypt(case, out):
         src = bw.Node('dtn://srcnode/', tx_routes=[('.*', 'dtn://next/', None)], name='source')
         provision(src, case['mode'])
         types = sorted({1 if t == 'payload' else 192 for t in case['targets']})
+        n_ivs = case.get('policy_ivs')
+        pol_ivs = ivs if n_ivs is None else [bytes([0x60 + i]) * 12 for i in range(int(n_ivs))]
         if case['mode'] == 'kw':
-            bu.add_policy(src, 'bcb', kid, types, content_alg=algorithms.A256GCM, ivs=ivs)
+            bu.add_policy(src, 'bcb', kid, types, content_alg=algorithms.A256GCM, ivs=pol_ivs)
         else:
-            bu.add_policy(src, 'bcb', kid, types, ivs=ivs)
-        err = src.send(BundleContainer(bpconv.to_repo(bundle)))
-        sent = src.sent()
+            bu.add_policy(src, 'bcb', kid, types, ivs=pol_ivs)
+        admin_obj = bool(case.get('admin_obj'))
+        earlier = int(case.get('earlier') or 0)
+        for idx in range(earlier):
+            # other bundles that went through the same security association first
+            other = base_bundle(dict(case, seed=case['seed'] + 10 + idx))
+            other['primary']['ts'] = [789004000000, 100 + idx]
+            src.send(BundleContainer(bpconv.to_repo(other, objform=admin_obj)))
+        n_before = len(src.sent())
+        err = src.send(BundleContainer(bpconv.to_repo(bundle, objform=admin_obj)))
+        sent = src.sent()[n_before:]
+        desc = 'policy IV list %s, %d earlier bundles, admin payload object %s' % ('one per target' if n_ivs is None else n_ivs, earlier, admin_obj)
+        for esc in src.escapes():
+            out.fail('escape:%s@%s' % (esc.exc_type, esc.frame), 'exception escaped a main-loop callback at the source: %s' % esc.exc_msg[:100])
         if err is not None or len(sent) != 1:
-            out.fail('source-failed', 'the source agent could not send the bundle with a BCB policy: %r (%d bundles)' % (err, len(sent)))
+            out.fail('source-failed', 'the source agent could not send the bundle with a BCB policy: %r (%d bundles; %s)' % (err, len(sent), desc))
             return None, None
         try:
             return bundle, r.strip(r.decode(sent[0]))
@@ -182,6 +213,9 @@ def execute(case):
     _alg, kid, kids = mode_params(mode)
     good_keys = bu.ref_keys(kids + ['k-enc-2'])
     accept = bool(case['accept'])
+    if case['direction'] == 'A':
+        out.label('policy-ivs:%s' % case.get('policy_ivs'), 'earlier:%s' % (case.get('earlier') or 0),
+                  'admin-payload-object' if case.get('admin_obj') else 'plain-payload')
     out.label('direction:' + case['direction'], 'mode:' + mode, 'targets:' + '+'.join(case['targets']),
               'accept' if accept else 'verify-only', 'plen:%d' % case['plen'])
     bcbs = rc.security_blocks(sealed, 12)
